@@ -554,3 +554,51 @@ def _w2_ok(seq, result):
 
 
 c.ens("closed-ranges-and-lists-of-triples", _w2_ok)
+
+
+# -- the maps themselves: a ToUnicode/collection map answers from its table (KeyError when absent), the identity map is the code point;
+#    a predefined CMap / Unicode map object takes its table from the data module, vertical ones say so in WMode -------------------------------------------------
+c = contract("pdfminer.cmapdb:UnicodeMap.get_unichr", props=["C07", "C06"])
+c.param("self", T.Obj("pdfminer.cmapdb:UnicodeMap", cid2unichr=T.Const({1: "A", 7: "xyz"}))).param("cid", T.OneOf(1, 7, 2))
+c.skip_cross = True
+c.inline = True
+c.returns(T.Opaque("text"))
+c.may_raise(KeyError, lambda cid: cid == 2)
+c.ens("the-table-entry", lambda cid, result: result == {1: "A", 7: "xyz"}[cid])
+
+cmdb = real_module("pdfminer.cmapdb")
+
+
+class _DataModule(T.Sort):
+    def fresh(self, ctx, name):
+        vert = ctx.choose([False, True], "IS_VERTICAL")
+        return SObj(None, {"CODE2CID": {"code-table": 1}, "IS_VERTICAL": vert, "CID2UNICHR_H": {"horizontal-table": 1}, "CID2UNICHR_V": {"vertical-table": 1}}, name)
+    def sample(self, rng):
+        return None
+    def from_model(self, ev, v):
+        return {"IS_VERTICAL": v.f["IS_VERTICAL"]}
+
+
+_cb_init = stub("pdfminer.cmapdb:CMapBase.__init__", ["self"])
+_cb_init.effect = lambda I, bound: bound["self"].f.update(attrs={"CMapName": "the-name"})
+_cm_init = stub("pdfminer.cmapdb:CMap.__init__", ["self"])
+_cm_init.effect = lambda I, bound: bound["self"].f.update(attrs={"CMapName": "the-name"}, code2cid={})
+_um_init = stub("pdfminer.cmapdb:UnicodeMap.__init__", ["self"])
+_um_init.effect = lambda I, bound: bound["self"].f.update(attrs={"CMapName": "the-name"}, cid2unichr={})
+c = contract("pdfminer.cmapdb:PyCMap.__init__", props=["C07"])
+c.param("self", T.Obj("pdfminer.cmapdb:PyCMap")).param("name", T.Const("the-name")).param("module", _DataModule())
+c.skip_cross = True
+c.inline = True
+c.stubs = {"pdfminer.cmapdb:CMap.__init__": _cm_init, "pdfminer.cmapdb:CMapBase.__init__": _cb_init}
+c.mod("self.*")
+c.ens("code-table-of-the-data-module-vertical-flag-as-WMode-1", lambda self, module: (
+    self.code2cid == {"code-table": 1} and (self.attrs.get("WMode") == 1 if module.IS_VERTICAL else "WMode" not in self.attrs)))
+
+c = contract("pdfminer.cmapdb:PyUnicodeMap.__init__", props=["C07", "C12"])
+c.param("self", T.Obj("pdfminer.cmapdb:PyUnicodeMap")).param("name", T.Const("the-name")).param("module", _DataModule()).param("vertical", T.OneOf(False, True))
+c.skip_cross = True
+c.inline = True
+c.stubs = {"pdfminer.cmapdb:UnicodeMap.__init__": _um_init, "pdfminer.cmapdb:CMapBase.__init__": _cb_init}
+c.mod("self.*")
+c.ens("table-of-the-requested-writing-mode-vertical-says-WMode-1", lambda self, vertical: (
+    (self.cid2unichr == {"vertical-table": 1} and self.attrs.get("WMode") == 1) if vertical else (self.cid2unichr == {"horizontal-table": 1} and "WMode" not in self.attrs)))
